@@ -2,6 +2,7 @@ import Klepto.Driver.Wrapper
 import Klepto.Driver.Keys
 import Klepto.Driver.Round
 import Klepto.Driver.Backend
+import Klepto.Driver.FS
 /-! the driver loop: one JSON object per input line, one JSON object per output line.
 A line with `"op":"cfg"` starts a new trace of the suite named in its `"suite"` field. -/
 namespace Klepto.Driver
@@ -14,6 +15,7 @@ inductive DState
   | keys (c : KeysCfg)
   | round
   | backend (d : BackendD)
+  | fs
 
 def badOp (msg : String) : Json := Json.mkObj [("bad-op", Json.str msg)]
 
@@ -33,6 +35,7 @@ def startTrace (j : Json) : DState × Json :=
     | .ok c => (.keys c, Json.str "ok")
     | .error e => (.idle, badOp e)
   | .ok "round" => (.round, Json.str "ok")
+  | .ok "fs" => (.fs, Json.str "ok")
   | .ok "backend" =>
     match backendOf j with
     | .ok d => (.backend d, Json.str "ok")
@@ -57,6 +60,10 @@ def stepLine (st : DState) (line : String) : DState × Json :=
           (.wrapper cfg s', Json.mkObj (("out", jOut o) :: jSt s'))
       | .round =>
         match roundStep j with
+        | .ok o => (st, o)
+        | .error e => (st, badOp e)
+      | .fs =>
+        match fsStep j with
         | .ok o => (st, o)
         | .error e => (st, badOp e)
       | .backend d =>
